@@ -11,6 +11,11 @@ class Validation:
           "Line: {}\n".format(str(self))+
           "{}beg > {}end: {} > {}".format(pfx, pfx, gfapy.posvalue(beg),
                                         gfapy.posvalue(end)))
+      if gfapy.islastpos(beg) and not gfapy.islastpos(end):
+        raise gfapy.FormatError(
+          "Line: {}\n".format(str(self))+
+          "Wrong use of $ marker\n"+
+          "{}end >= {}beg$".format(pfx, pfx))
 
   def validate_positions(self):
     "Checks that positions suffixed by $ are the last position of segments"
